@@ -21,7 +21,7 @@ from ..recorder import norm_ev_type
 
 LEVEL = "model_checking"
 RULE = (
-    "for every TREE(N) universal machine containing a parallel state or a history node: the reference run (identity "
+    "for every TREE(N) universal machine containing a parallel state or a history node (up to 4 states with the shared events that select a transition in several regions at once): the reference run (identity "
     "ranks) enumerates all transitions (history, event) of the BFS closure; every rank permutation of the non-root, "
     "non-history nodes re-executes each of them on a freshly built machine and the full trace (configuration, context, "
     "ordered markers with event identity, on_transition arguments) must be byte-identical; plus a PYTHONHASHSEED "
@@ -296,7 +296,10 @@ def run_unit(unit):
         r["states"] = r["executions"]
         return r
     tree, tier = unit
-    cfg, nodes, events = F.universal_config(tree, reenter_all=False)
+    # trees of up to 4 non-root nodes also carry the shared events (one event answered by every state, each region with its
+    # own target): only then does one event select transitions in several regions, whose ORDER is what can depend on hashing
+    shared = "P" in F.tree_kinds(tree) and F.tree_size(tree) <= 5
+    cfg, nodes, events = F.universal_config(tree, reenter_all=False, shared=shared)
     byid = {n.id: n for n in nodes}
     ranked = [n.id for n in nodes if n.idx != 0 and not n.is_history]
     res = dict(states=0, transitions=0, executions=0, distinct_count=0, violations=[], samples=[], caps=[])
@@ -325,7 +328,7 @@ def run_unit(unit):
                 if o[2] != "running":
                     return []
                 conf = set(o[0])
-                return [n for n, e in events.items() if e["src"] in conf and e["kind"] in ("T", "R")]
+                return [n for n, e in events.items() if e["src"] in conf and e["kind"] in ("T", "R", "S")]
 
             def send(d, ev):
                 d.send(ev, n=1)
@@ -405,7 +408,7 @@ def replay(payload):
             print("  ", v["what"][:400])
         return r["violations"]
     tree = _tuplify(payload["tree"])
-    cfg, nodes, events = F.universal_config(tree, reenter_all=False)
+    cfg, nodes, events = F.universal_config(tree, reenter_all=False, shared="P" in F.tree_kinds(tree) and F.tree_size(tree) <= 5)
     ranked = [n.id for n in nodes if n.idx != 0 and not n.is_history]
     out = []
     traces = []
